@@ -265,18 +265,22 @@ def drive_coding(sd, tid=0, seed=0, cap=200, all_imputers=False, enc_filter=None
     return {'tid': tid, 's': sd, 'ev': ev}
 
 
-def _drive_encoder(ev, st, plist, kind, idx, factory, impf, cap, rng, max_pats):
+def _drive_encoder(ev, st, plist, kind, idx, factory, impf, cap, rng, max_pats, mgr=None):
     from adsg_core.optimization.assign_enc.assignment_manager import AssignmentManager, LazyAssignmentManager
     from adsg_core.optimization.assign_enc.lazy_encoding import LazyEncoder
     from adsg_core.optimization.assign_enc.patterns.encoder import InvalidPatternEncoder
     ee = {'e': 'Enc', 'kind': kind, 'idx': idx, 'name': '', 'imp': '', 'err': '', 'refused': False, 'ndv': [],
           'cond': []}
     try:
-        enc = factory(impf())
-        ee['name'] = str(enc)[:80]
-        ee['imp'] = repr(impf())[:60]
-        cls = LazyAssignmentManager if isinstance(enc, LazyEncoder) else AssignmentManager
-        mgr = cls(st, enc)
+        if mgr is None:
+            enc = factory(impf())
+            ee['name'] = str(enc)[:80]
+            ee['imp'] = repr(impf())[:60]
+            cls = LazyAssignmentManager if isinstance(enc, LazyEncoder) else AssignmentManager
+            mgr = cls(st, enc)
+        else:
+            ee['name'] = str(mgr.encoder)[:80]
+            ee['imp'] = 'selected'
         ee['ndv'] = [int(dv.n_opts) for dv in mgr.design_vars]
         ee['cond'] = [bool(dv.conditionally_active) for dv in mgr.design_vars]
     except InvalidPatternEncoder:
